@@ -359,7 +359,7 @@ def json_float_checks(ctx, binp):
     back (correctly rounded) to the same bits -- random bit patterns, subnormals, 17-digit values, 4-decimal values, huge
     magnitudes, boundary values, hard decimal strings (vs Rust's correctly rounded std parser), whole configurations with
     arbitrary finite fields.  Also records what happens to NaN / infinity."""
-    n = 200000 if ctx.tier == "quick" else 2000000
+    n = 40000 if ctx.tier == "quick" else 2000000
     obs = run_harness(ctx, binp, ["c16", "json", ctx.seed, n])
     o = next((x for x in obs if x.get("kind") == "json_floats"), None)
     if o is None:
@@ -492,7 +492,7 @@ def run(ctx):
         "exported fields = physical value rounded to 4 decimals in the field's unit": "proved (generated conversion = unit table; |x - round4 x| <= 0.5e-4) + validated; idler waist position is exported UNROUNDED by the code",
         "second round trip stable": "proved (reals, all oracles) for angles away from the wrap-around + validated to 1e-9",
         "JSON loss-free": "validated_only (serde_json with float_roundtrip + ryu are external): every finite f64 prints and parses back to the same "
-                          "bits on 1e6 (quick) / 1e7 (thorough) values incl. subnormals, 17-digit values, hard decimal strings, whole configurations; "
+                          "bits on 2e5 (quick) / 1e7 (thorough) values incl. subnormals, 17-digit values, hard decimal strings, whole configurations; "
                           "every exported number is a 4-decimal value (proved) except threshold/apodization parameters; NaN/inf are written as null and do "
                           "not read back (recorded in the evidence)",
         "auto = explicit optimum call": "proved (all oracles: same arguments, same order) + validated bit-exactly",
